@@ -11,6 +11,7 @@ import GoNeat.Driver.Genesis
 import GoNeat.Driver.Parallel
 import GoNeat.Driver.IO
 import GoNeat.Driver.Innov
+import GoNeat.Driver.History
 
 namespace GoNeat.Driver
 def allOps : List (String × Handler) :=
@@ -26,4 +27,5 @@ def allOps : List (String × Handler) :=
   ++ parallelOps
   ++ ioOps
   ++ innovOps
+  ++ historyOps
 end GoNeat.Driver
